@@ -133,6 +133,17 @@ def h_d3_class(ctx, cls, n, chname):
     return _d3_obs(ctx, N("receipt", {"id": s, "to": s + "@" + "s.whatsapp.net"}, [N("x")]), ch)
 
 
+def h_longstr(ctx, n, chname):
+    """long attribute strings through both codecs (8/20/31-bit string length forms)"""
+    enc, dec, td, N = CC.lib()
+    ch = W().Choices(**CHOICE_SETS[chname])
+    c = H.chars(ctx, "s", 1)
+    ctx.assume(CC.ctx_last_code(ctx, "s", 1) != 64)
+    s = c + ("x9-" * (n // 3 + 1))[:n - 1]
+    t = N("iq", {"id": s, "t": "1"}, [N("x")])
+    return _d2_obs(ctx, t) + _d3_obs(ctx, t, ch)
+
+
 def h_d3_strcontent(ctx, kind, n, chname):
     """node content sent by the peer as a string (token / packed / JID / literal) instead of binary"""
     enc, dec, td, N = CC.lib()
@@ -189,6 +200,9 @@ def cases(tier):
             cs.append(dict(name="d2-class[%s,n=%d]" % (cls, n), fn=h_d2_class, args=(cls, n), weight=1 + n / 6.0, timeout_s=600))
             for chn in (("default", "unpacked", "literal") if n < 100 or not q else ("default",)):
                 cs.append(dict(name="d3-class[%s,n=%d,%s]" % (cls, n, chn), fn=h_d3_class, args=(cls, n, chn), weight=1 + n / 6.0, timeout_s=600))
+    for n in ((255, 256, 300) if q else (255, 256, 300, 65536, 1 << 20)):
+        for chn in ("default", "len20", "len31"):
+            cs.append(dict(name="longstr[n=%d,%s]" % (n, chn), fn=h_longstr, args=(n, chn), weight=2 + n / 2000.0, timeout_s=300 if q else 3000))
     for kind, ns in (("token", (0,)), ("token2", (0,)), ("jid", (0,)), ("digits", (1, 2, 5)), ("HEX-only", (1, 4)), ("free", (1, 2) if q else (1, 2, 3))):
         for n in ns:
             for chn in ("strcontent", "strcontent+literal", "strcontent+unpacked"):
